@@ -447,6 +447,11 @@ hwloc_nolibxml_backend_init(struct hwloc_xml_backend_data_s *bdata,
   bdata->data = nbdata;
 
   if (xmlbuffer) {
+    if (xmlbuflen <= 0) {
+      /* the size includes the ending \0 */
+      errno = EINVAL;
+      goto out_with_nbdata;
+    }
     nbdata->buffer = malloc(xmlbuflen);
     if (!nbdata->buffer)
       goto out_with_nbdata;
@@ -486,6 +491,11 @@ hwloc_nolibxml_import_diff(struct hwloc__xml_import_state_s *state,
   HWLOC_BUILD_ASSERT(sizeof(*nstate) <= sizeof(state->data));
 
   if (xmlbuffer) {
+    if (xmlbuflen <= 0) {
+      /* the size includes the ending \0 */
+      errno = EINVAL;
+      goto out;
+    }
     buffer = malloc(xmlbuflen);
     if (!buffer)
       goto out;
